@@ -32,6 +32,7 @@ import (
 
 	"pgregory.net/rapid"
 
+	cbftCommon "github.com/xuperchain/xupercore/kernel/consensus/base/common"
 	cbft "github.com/xuperchain/xupercore/kernel/consensus/base/driver/chained-bft"
 
 	"verifharness/hx"
@@ -129,6 +130,9 @@ type c15Machine struct {
 	prevRoot     int
 	prevHighView int64
 	st           c15Stats
+	// smr: the real Smr around the tree (created at the first confirmed block): confirmed blocks enter through
+	// Smr.UpdateQcStatus, the entry tdpos / xpoa ProcessConfirmBlock and block sync use
+	smr *cbft.Smr
 
 	// scratch
 	treeCnt, orphCnt []int
@@ -381,6 +385,7 @@ func (m *c15Machine) apply(op c15Op) (executed bool, err error) {
 	for i := range m.wasOrphan {
 		m.wasOrphan[i] = m.liveOrphan(i, root)
 	}
+	viaSmr := false
 	deliver := func() error {
 		known := m.accepted[k]
 		if !known {
@@ -397,7 +402,13 @@ func (m *c15Machine) apply(op c15Op) (executed bool, err error) {
 		} else {
 			m.st.dups++
 		}
-		if e := t.VerifUpdateQcStatus(m.mkNode(k)); e != nil {
+		var e error
+		if viaSmr && m.smr != nil {
+			e = m.smr.UpdateQcStatus(m.mkNode(k))
+		} else {
+			e = t.VerifUpdateQcStatus(m.mkNode(k))
+		}
+		if e != nil {
 			return fmt.Errorf("updateQcStatus(%s) refused a proposal with a parent id: %v", op.ID, e)
 		}
 		m.accepted[k] = true
@@ -424,7 +435,14 @@ func (m *c15Machine) apply(op c15Op) (executed bool, err error) {
 		if op.Justify {
 			t.VerifUpdateHighQC(m.idCopy(m.parent[k]))
 		}
-		return true, deliver()
+		if m.smr == nil {
+			m.smr = cbft.NewSmr(hx.BCName, "c15-local", c14NopLog{}, nil, c14CryptoOf(c14OutsiderB), &c14Pacemaker{view: 1},
+				&cbft.DefaultSaftyRules{Crypto: c14CryptoOf(c14OutsiderB), QcTree: t, Log: c14NopLog{}}, &c14Election{n: 4}, t)
+		}
+		viaSmr = true
+		err := deliver()
+		viaSmr = false
+		return true, err
 	case "vote":
 		if !m.propd[k] || t.DFSQueryNode(m.ids[k]) == nil {
 			return false, nil
@@ -957,6 +975,93 @@ func c15TreeOp(parents []int) c15Op {
 // the test
 // ---------------------------------------------------------------------------------------------
 
+// c15InitBox: the tree a (re)started node builds - the real common.InitQCTree over a stub ledger, for every start height
+// 1..6 and every tip height start-1..10 - must itself satisfy the statement: one tree below Root in which every
+// proposal is stored once and every son names its holder as parent, views increasing; HighQC (and GenericQC when set)
+// nodes of that tree, GenericQC the holder of HighQC.
+func c15InitOne(start, tip int64) error {
+	l := &c14Ledger{}
+	for h := int64(0); h <= tip; h++ {
+		b := &c14Block{proposer: hx.Ring[0].Address, height: h, id: []byte(fmt.Sprintf("c15-init-block-%02d", h)), storage: []byte("{}"), ts: h}
+		if h > 0 {
+			b.pre = l.chain[h-1].id
+		}
+		l.chain = append(l.chain, b)
+	}
+	tree := cbftCommon.InitQCTree(start, l, c14NopLog{})
+	fail := func(format string, args ...interface{}) error {
+		return fmt.Errorf("InitQCTree(start=%d) on a ledger with tip height %d: %s", start, tip, fmt.Sprintf(format, args...))
+	}
+	if tree == nil || tree.Root == nil || tree.HighQC == nil {
+		return fail("no tree / root / HighQC")
+	}
+	seen := map[string]bool{}
+	inTree := map[*cbft.ProposalNode]*cbft.ProposalNode{} // node -> holder
+	var walk func(n, holder *cbft.ProposalNode) error
+	walk = func(n, holder *cbft.ProposalNode) error {
+		id := string(n.In.GetProposalId())
+		if seen[id] {
+			return fail("proposal %q is stored twice", id)
+		}
+		seen[id] = true
+		inTree[n] = holder
+		if holder != nil {
+			if string(n.In.GetParentProposalId()) != string(holder.In.GetProposalId()) {
+				return fail("node %q hangs under %q but names parent %q", id, holder.In.GetProposalId(), n.In.GetParentProposalId())
+			}
+			if n.In.GetProposalView() <= holder.In.GetProposalView() {
+				return fail("node %q (view %d) hangs under %q (view %d)", id, n.In.GetProposalView(), holder.In.GetProposalId(), holder.In.GetProposalView())
+			}
+		}
+		for _, s := range n.Sons {
+			if err := walk(s, n); err != nil {
+				return err
+			}
+		}
+		return nil
+	}
+	if err := walk(tree.Root, nil); err != nil {
+		return err
+	}
+	if _, ok := inTree[tree.HighQC]; !ok {
+		return fail("HighQC %q is not a node of the tree", tree.HighQC.In.GetProposalId())
+	}
+	if tree.GenericQC != nil {
+		if _, ok := inTree[tree.GenericQC]; !ok {
+			return fail("GenericQC %q is not a node of the tree", tree.GenericQC.In.GetProposalId())
+		}
+		if inTree[tree.HighQC] != tree.GenericQC {
+			return fail("GenericQC %q is not the holder of HighQC %q", tree.GenericQC.In.GetProposalId(), tree.HighQC.In.GetProposalId())
+		}
+	}
+	return nil
+}
+
+func c15InitBox(t *testing.T, c *hx.Collector) {
+	for start := int64(1); start <= 6; start++ {
+		for tip := start - 1; tip <= 10; tip++ {
+			key := map[string]int64{"start": start, "tip": tip}
+			c.Count(key, tip == start+1 || tip == start, "init-tree")
+			if err := c15InitOne(start, tip); err != nil {
+				p := c.Violate("init-tree", err.Error(), key)
+				t.Errorf("C15 init-tree: %v (replay %s)", err, p)
+				return
+			}
+		}
+	}
+	c.SetExhaustive("InitQCTree: start height 1..6 x tip height start-1..10")
+}
+
+func init() {
+	replayers["C15/init-tree"] = func(raw json.RawMessage, fs *hx.FindingSet) error {
+		var k map[string]int64
+		if err := json.Unmarshal(raw, &k); err != nil {
+			return err
+		}
+		return c15InitOne(k["start"], k["tip"])
+	}
+}
+
 func TestC15(t *testing.T) {
 	c := hx.NewCollector("C15", "exploration",
 		"QCPendingTree driven synchronously through updateQcStatus / updateHighQC / updateCommit / enforceUpdateHighQC with the call shapes of smr.handleReceivedProposal (optional commit first, at most once per id), handleReceivedVoteMsg (received proposals found in the tree), ProcessConfirmBlock (optional justify first, repeatable) and ProcessBeforeMiner rollbacks, over abstract proposal trees of up to 12 nodes (competing children, chains >= 5 so that commits trigger, consecutive and gapped views, fresh and restarted trees): ALL arrival orders of every tree of <= 6 proposals (also with one duplicate for <= 5, and as proposals with commit and votes), rapid-drawn orders with interleaved votes, justifies, duplicates, dropped proposals and rollbacks above. After every step a set-of-nodes model checks: one tree below Root and one orphan forest without repeated / foreign / misplaced nodes; every accepted proposal whose ancestors down from Root have all arrived is in the tree exactly once, every other accepted descendant of Root is among the orphans exactly once; HighQC view never decreases except by a rollback; Generic/Locked/CommitQC, when set and above the committed height, are the 1st/2nd/3rd ancestor of HighQC; Root only moves, by a commit, to a descendant of the previous Root that is an ancestor of the certifying proposal; pacemaker view = running maximum. Non-trivial = an arrival order in which at least one orphan is adopted or two competing children arrive before their parent; distinct = hash of the operation trace",
@@ -984,6 +1089,8 @@ func TestC15(t *testing.T) {
 			excl[k] = true
 		}
 	}
+
+	c15InitBox(t, c)
 
 	// --- exhaustive box: every tree of <= maxN proposals, every arrival order ---
 	maxN, sampleN := 6, 0
